@@ -531,7 +531,7 @@ func c15() []*Ob {
 						// "already saved" fast path: version <= savedVersion
 						for _, f := range rp.Facts {
 							if bo, ok := f.Cond.(*ssa.BinOp); ok && (bo.Op == token.LEQ || bo.Op == token.GTR || bo.Op == token.LSS || bo.Op == token.GEQ) {
-								isParam := func(v ssa.Value) bool { p, ok := v.(*ssa.Parameter); return ok && p.Name() == "version" }
+								isParam := func(v ssa.Value) bool { p, ok := v.(*ssa.Parameter); return ok && ParamName(p) == "version" }
 								if isParam(bo.X) || isParam(bo.Y) {
 									return "version already saved"
 								}
@@ -568,7 +568,7 @@ func c15() []*Ob {
 					}
 					var info *ssa.Parameter
 					for _, p := range fn.Params {
-						if p.Name() == "info" {
+						if ParamName(p) == "info" {
 							info = p
 						}
 					}
